@@ -83,30 +83,26 @@ def pv_truthy(pv):
 
 
 class Flags(set):
-    """feature flags collected while the declaration list is computed; `real`: read the layout as the code does where an
-    open finding makes it deviate from the property (D36: a falsy condition callable is never consulted)"""
-    real = False
-
-
-def _vis_state(v, attr):
-    """'visible' | 'hidden' | 'd33' (the property says hidden — the condition returns a false value — but the condition
-    callable is itself a false value, so the loader never calls it and shows the item)"""
-    if v is None or v == "always":
-        return "visible"
-    if v == "hidden":
-        return "hidden"
-    if pv_truthy(L.cond_pv(v, attr)):
-        return "visible"
-    if isinstance(v, dict) and v.get("callable") == "falsy-obj":
-        return "d33"
-    return "hidden"
+    """feature flags collected while the declaration list is computed"""
 
 
 def _visible(v, attr=None, flags=None):
-    st = _vis_state(v, attr)
-    if st == "d33" and flags is not None:
+    """the property's single reading: no condition => visible; hidden() => not; visible_if(c) => visible iff c(obj) is a
+    true value (whatever kind of callable c is)"""
+    if v is None or v == "always":
+        return True
+    if v == "hidden":
+        return False
+    return pv_truthy(L.cond_pv(v, attr))
+
+
+def _fh(v, attr, flags):
+    """hidden by a condition that returns a false value AND is itself a false value (callable instance with __bool__ /
+    __len__): the input class of the repaired finding D36 — recorded only to label a regression"""
+    r = isinstance(v, dict) and v.get("callable") == "falsy-obj" and not pv_truthy(L.cond_pv(v, attr))
+    if r:
         flags.add("falsy-callable-hides")
-    return st == "visible" or (st == "d33" and flags is not None and flags.real)
+    return r
 
 
 def _cond_flags(v, attr, level, flags):
@@ -164,7 +160,7 @@ def x_tests(tests, flags, in_class=False):
         name = t.get("name") or t["attr"]
         desc = t.get("desc") or _desc_from_name(name)
         base = dict(_meta_of(t), rank=t["rank"], disabled=_disabled_of(t), visible=_visible(t.get("vis"), t["attr"], flags),
-                    dunder=dunder)
+                    fh=_fh(t.get("vis"), t["attr"], flags), dunder=dunder)
         _cond_flags(t.get("vis"), t["attr"], "test", flags)
         if t.get("disabled"):
             flags.add("disabled")
@@ -196,7 +192,7 @@ def x_cls(c, flags, in_class=False):
     dunder = in_class and c["attr"].startswith("__")
     if dunder:
         flags.add("dunder-member")
-    return {"name": name, "desc": c.get("desc") or _desc_from_name(name), "rank": c["rank"], "visible": _visible(c.get("vis"), c["attr"], flags),
+    return {"name": name, "desc": c.get("desc") or _desc_from_name(name), "rank": c["rank"], "visible": _visible(c.get("vis"), c["attr"], flags), "fh": _fh(c.get("vis"), c["attr"], flags),
             "origin": "class", "dunder": dunder, "tests": x_tests(c["tests"], flags, True),
             "subs": [x_cls(s, flags, True) for s in sorted(c["subs"], key=lambda s: (s["rank"], s["attr"]))]}
 
@@ -212,7 +208,8 @@ def x_module(m, flags):
     else:
         name = info["name"] if info.get("name") is not None else m["stem"]
         node.update(name=name, desc=info["desc"] if info.get("desc") is not None else _desc_from_name(name),
-                    rank=info["xrank"] if info.get("xrank") is not None else m["auto_rank"], visible=_visible(info.get("vis"), None, flags))
+                    rank=info["xrank"] if info.get("xrank") is not None else m["auto_rank"], visible=_visible(info.get("vis"), None, flags),
+                    fh=_fh(info.get("vis"), None, flags))
         _cond_flags(info.get("vis"), None, "module", flags)
         if info.get("xrank") is not None:
             flags.add("explicit-rank")
@@ -287,6 +284,19 @@ def x_entries(nodes, prefix=(), via=False):
     return out
 
 
+def x_fh_paths(nodes, prefix=(), via=False):
+    """paths of the tests that are hidden only through items of the class `_fh` (where the unrepaired loader showed them)"""
+    out = []
+    for n in nodes:
+        p = prefix + (n["name"],)
+        v = via or bool(n.get("fh"))
+        for t in n["tests"]:
+            if (t["visible"] or t.get("fh")) and (v or t.get("fh")):
+                out.append(p + (t["name"],))
+        out += x_fh_paths([s for s in n["subs"] if s["visible"] or s.get("fh")], p, v)
+    return out
+
+
 def _dups(xs):
     seen = set()
     for x in xs:
@@ -321,13 +331,11 @@ def x_loose_dup(nodes):
     return False
 
 
-def declared(case, real=False):
-    """-> dict(entries, strict_dup, loose_dup, flags, invalid)   (entries: the generator's declaration list).
-    real=False: the property's reading; real=True: with the deviation of the open finding D36 applied."""
+def declared(case):
+    """-> dict(entries, strict_dup, loose_dup, flags, invalid)   (entries: the generator's declaration list)"""
     entry, pick = case["entry"], case.get("pick")
     lay = L.with_ranks(case["layout"], entry, pick)
     flags, extra = Flags(), []
-    flags.real = real
     if entry == "dir":
         nodes = x_dir(lay, flags, extra)
     elif entry == "files":
@@ -345,7 +353,8 @@ def declared(case, real=False):
         c = [c for c in m["classes"] if c["attr"] == pick[1]][0]
         nodes = [dict(x_cls(c, flags), visible=True)]
     entries = x_entries(nodes)
-    return {"entries": entries, "strict_dup": x_strict_dup(nodes), "loose_dup": x_loose_dup(nodes + extra),
+    return {"entries": entries, "falsy_hidden": x_fh_paths(nodes + [n for n in extra if n.get("fh")], (), False) if "falsy-callable-hides" in flags else [],
+            "strict_dup": x_strict_dup(nodes), "loose_dup": x_loose_dup(nodes + extra),
             "flags": sorted(flags), "invalid": any(f.startswith("INVALID") for f in flags),
             "depth": max([len(e["path"]) for e in entries] + [0])}
 
@@ -631,7 +640,8 @@ def _info(**kw):
 
 _PV = L._pv
 
-# minimal witness of the open finding D36 (= LccModel.C13.falsyCondWitness): the condition callable is itself a false value
+# minimal witness of the repaired finding D36 (= LccModel.C13.falsyCondWitness): the condition callable is itself a false value;
+# it was loaded before the repair and must stay hidden
 WITNESS_D36 = {"entry": "dir", "defect": None, "layout": {"name": "suites", "noise": False, "dirs": [], "mods": [
     _m("m", tests=[_t("gated", pos=0, vis=_cond(_PV("bool", v=False), call="falsy-obj")), _t("normal", pos=1)])]}}
 
@@ -745,18 +755,19 @@ class Load(C.Stream):
     def oracle(self, case, obs):
         dec = declared(case)
         fails = self.judge(dec, obs)
-        if fails and "falsy-callable-hides" in dec["flags"]:
-            # D36 (open): an item whose condition returns a false value is shown because the condition callable is itself a
-            # false value (`md.condition and not md.condition(obj)` never calls it).  Judge the observation once more with
-            # exactly that deviation applied: what remains is something else and is reported under its own signature.
-            real = declared(case, real=True)
-            pp = [tuple(e["path"]) for e in dec["entries"]]
-            shown = [".".join(e["path"]) for e in real["entries"] if tuple(e["path"]) not in pp]
-            d33 = C.Failure("C13/falsy-condition-callable-never-consulted",
-                            f"visible_if(c) with c(obj) false, but c itself is a false value (callable instance with __bool__/__len__): "
-                            f"the loader never calls c and shows the item; not declared visible but loaded: {shown[:4]}")
-            return ([d33] + self.judge(real, obs))[:3]
-        return fails
+        if fails and dec["falsy_hidden"] and "ok" in obs:
+            # label only (the failures above stand as they are): the regression of the repaired finding D36 — an item whose
+            # condition returns a false value is loaded when the condition callable is itself a false value
+            # (`md.condition and not md.condition(obj)` never called it)
+            ep = {tuple(e["path"]) for e in dec["entries"]}
+            fh = set(dec["falsy_hidden"])
+            shown = [".".join(e["path"]) for e in obs["flat"] if tuple(e["path"]) not in ep and tuple(e["path"]) in fh]
+            if shown:
+                fails.insert(0, C.Failure(
+                    "C13/falsy-condition-callable-never-consulted",
+                    f"visible_if(c) with c(obj) false and c itself a false value (callable instance with __bool__/__len__): the item "
+                    f"is loaded although it is not declared visible: {shown[:4]}"))
+        return fails[:3]
 
     def judge(self, dec, obs):
         """the property statement on one observation of the real loader, against the declaration list `dec`"""
@@ -843,10 +854,6 @@ class Load(C.Stream):
                 return "Lean specification vs generator's declaration list " + d
             if ans["no_dunder"] != ("dunder-member" not in dec["flags"]):
                 return "Lean noDunder guard vs generator's flag"
-            scope = case["layout"] if case["entry"] == "dir" else dict(case["layout"], dirs=[])
-            falsy_callable = any(isinstance(v, dict) and v.get("callable") == "falsy-obj" for v, _, _ in L.conditions(scope))
-            if case["entry"] in ("dir", "files") and ans["no_falsy_cond"] == falsy_callable:
-                return "Lean noFalsy guard vs the layout's condition callables"
         else:
             e = ans["load_error"]
             if "error" not in obs:
